@@ -500,7 +500,7 @@ theorem setFrameSet_values_allchannels_partial
   have htell : ∀ f ∈ rangeList a b c, rle01Tell rle f = .ok (loc f) := by
     intro f hf
     rw [rle01Tell_locate, hloc f (mem_rangeList a b c f hf).2]
-  obtain ⟨hG, hflat⟩ := foldMap_grouped c ((rangeList a b c).map loc) [] ⟨by simp, by simp⟩
+  obtain ⟨hG, hflat, _⟩ := foldMap_grouped c ((rangeList a b c).map loc) [] ⟨by simp, by simp⟩ (by simp)
     (chain_of_frames (expand rle) hR c hstep loc a b (fun f _ h2 => hloc f h2))
     (by cases (rangeList a b c).map loc with
         | nil => trivial
@@ -760,7 +760,7 @@ theorem setFrameSet_values
   have htell : ∀ f ∈ rangeList a b c, rle01Tell rle f = .ok (loc f) := by
     intro f hf
     rw [rle01Tell_locate, hloc f (mem_rangeList a b c f hf).2]
-  obtain ⟨hG, hflat⟩ := foldMap_grouped c ((rangeList a b c).map loc) [] ⟨by simp, by simp⟩
+  obtain ⟨hG, hflat, _⟩ := foldMap_grouped c ((rangeList a b c).map loc) [] ⟨by simp, by simp⟩ (by simp)
     (chain_of_frames (expand rle) hR c hstep loc a b (fun f _ h2 => hloc f h2))
     (by cases (rangeList a b c).map loc with
         | nil => trivial
@@ -880,7 +880,7 @@ theorem implied_x_rule
   have htell : ∀ f ∈ rangeList a b c, rle01Tell rle f = .ok (loc f) := by
     intro f hf
     rw [rle01Tell_locate, hloc f (mem_rangeList a b c f hf).2]
-  obtain ⟨hG, hflat⟩ := foldMap_grouped c ((rangeList a b c).map loc) [] ⟨by simp, by simp⟩
+  obtain ⟨hG, hflat, _⟩ := foldMap_grouped c ((rangeList a b c).map loc) [] ⟨by simp, by simp⟩ (by simp)
     (chain_of_frames (expand rle) hR c hstep loc a b (fun f _ h2 => hloc f h2))
     (by cases (rangeList a b c).map loc with
         | nil => trivial
@@ -955,7 +955,7 @@ theorem implied_x_partial
   obtain ⟨ops, _, hx⟩ := implied_x_rule d w s rle st fsOld sl chList hi hu hs hcl hne hR hst hlt hstop
   rw [hx]
   have hstep : 0 < (slOrAll sl (rle01Total rle)).step1 := by unfold Sl.step1; split <;> omega
-  obtain ⟨hG, hflat⟩ := groupsOf_spec (expand rle) hR (slOrAll sl (rle01Total rle)).start (slOrAll sl (rle01Total rle)).stop
+  obtain ⟨hG, hflat, _⟩ := groupsOf_spec (expand rle) hR (slOrAll sl (rle01Total rle)).start (slOrAll sl (rle01Total rle)).stop
     (slOrAll sl (rle01Total rle)).step1 hstep (by rw [← expand_total]; exact hstop)
   rw [allXs_good _ _ _ _ none hG.2 (Or.inl ⟨rfl, hclass⟩), hflat]
   simp only [List.map_map, Option.some.injEq]
